@@ -94,6 +94,10 @@ def run(facts, report, config):
     tab = load_table("c15.toml")
     reviewed = {e["key"]: e for e in tab.get("reviewed", [])}
     used = set()
+    inherent = {}
+    for b in facts.fn_bodies():
+        if b["kind"] == "AssocFn" and b.get("impl_self") and not b.get("impl_trait"):
+            inherent.setdefault(norm_id(mir.peel_refs(b["impl_self"])), {})[b["name"]] = b["id"]
     for b in facts.fn_bodies():
         if b["kind"] == "Closure":
             continue
@@ -178,6 +182,18 @@ def run(facts, report, config):
             if comp is not None and comp != want:
                 problems.append("projection: `%s` returns component .%s of `%s` (quotient is .0, remainder .1)" % (
                     b.get("name"), comp, cname))
+        # R4 same-name route: a trait method whose self type has an inherent method of the same name must reach
+        # a method of that name (directly or through another forwarder), not a different member of the family
+        if b.get("impl_trait"):
+            st = norm_id(mir.peel_refs(b.get("impl_self") or ""))
+            myname = b.get("name")
+            if myname in inherent.get(st, {}):
+                cseg = mir.last_seg(cname)
+                twin_ok = (myname == cseg + "_vartime") or (myname == "eq" and cseg == "ct_eq") or \
+                    (myname == "ne" and cseg == "ct_ne")
+                if cseg != myname and not twin_ok:
+                    problems.append("same-name route: `%s` has an inherent method `%s` but this trait method calls `%s` "
+                                    "instead" % (st, myname, cname))
         if not problems:
             report.add(Instance(key, "c15.forward", "ok",
                                 "auto: %s -> %s (family %s, order %s)" % (own, mir.last_seg(cname), cfam, order),
